@@ -54,7 +54,22 @@ impl OpKind {
 pub struct OpSpec {
     pub kind: OpKind,
     pub fd: usize,
-    pub tok: usize,
+    /// token the future is wrapped with (`with_cancel`); `None` = plain future, no token (then
+    /// nothing but the driver and the future keep the operation's storage alive)
+    pub tok: Option<usize>,
+}
+
+impl OpSpec {
+    pub fn tok_name(&self) -> String {
+        match self.tok {
+            Some(k) => format!("tok{k}"),
+            None => "plain".into(),
+        }
+    }
+}
+
+pub fn ntok(sc: &Scenario) -> usize {
+    sc.ops.iter().filter_map(|o| o.tok).map(|k| k + 1).max().unwrap_or(0)
 }
 
 #[derive(Clone, Debug)]
@@ -68,7 +83,11 @@ pub struct Scenario {
 }
 
 fn op(kind: OpKind, fd: usize, tok: usize) -> OpSpec {
-    OpSpec { kind, fd, tok }
+    OpSpec { kind, fd, tok: Some(tok) }
+}
+
+fn plain(kind: OpKind, fd: usize) -> OpSpec {
+    OpSpec { kind, fd, tok: None }
 }
 
 pub fn scenarios() -> Vec<Scenario> {
@@ -78,15 +97,15 @@ pub fn scenarios() -> Vec<Scenario> {
         Scenario { name: "recv2", deeper: true, fds: vec![Sock], ops: vec![op(Recv, 0, 0), op(Recv, 0, 1)] },
         Scenario { name: "recv2-one-token", deeper: false, fds: vec![Sock], ops: vec![op(Recv, 0, 0), op(Recv, 0, 0)] },
         Scenario { name: "recv+pollonce", deeper: true, fds: vec![Sock], ops: vec![op(Recv, 0, 0), op(PollR, 0, 1)] },
-        Scenario { name: "pollonce+recv", deeper: false, fds: vec![Sock], ops: vec![op(PollR, 0, 0), op(Recv, 0, 1)] },
-        Scenario { name: "accept2", deeper: false, fds: vec![Listener], ops: vec![op(Accept, 0, 0), op(Accept, 0, 1)] },
-        Scenario { name: "piperead2", deeper: false, fds: vec![Pipe], ops: vec![op(Read, 0, 0), op(Read, 0, 1)] },
+        Scenario { name: "pollonce+recv", deeper: false, fds: vec![Sock], ops: vec![plain(PollR, 0), op(Recv, 0, 0)] },
+        Scenario { name: "accept2", deeper: false, fds: vec![Listener], ops: vec![op(Accept, 0, 0), plain(Accept, 0)] },
+        Scenario { name: "piperead2", deeper: false, fds: vec![Pipe], ops: vec![plain(Read, 0), op(Read, 0, 0)] },
         Scenario { name: "connect+pollonce", deeper: false, fds: vec![Blackhole], ops: vec![op(Connect, 0, 0), op(PollW, 0, 1)] },
         Scenario {
             name: "recv2+piperead",
             deeper: false,
             fds: vec![Sock, Pipe],
-            ops: vec![op(Recv, 0, 0), op(Recv, 0, 1), op(Read, 1, 0)],
+            ops: vec![op(Recv, 0, 0), plain(Recv, 0), op(Read, 1, 0)],
         },
         Scenario {
             name: "recv+pollonce+accept",
@@ -198,8 +217,7 @@ fn enabled(sc: &Scenario, b: &Bounds, a: &Abs) -> Vec<Step> {
             v.push(Step::Drop(i as u8));
         }
     }
-    let ntok = sc.ops.iter().map(|o| o.tok + 1).max().unwrap_or(0);
-    for k in 0..ntok {
+    for k in 0..ntok(sc) {
         if a.fired[k] == 0 || (a.fired[k] == 1 && a.agains < b.max_again) {
             v.push(Step::Tok(k as u8));
         }
@@ -252,7 +270,7 @@ fn apply(sc: &Scenario, a: &mut Abs, s: Step) {
 /// One run of the enumeration closure: draws a sequence (choice 0 at every point = stop here).
 pub fn draw(sc: &Scenario, b: &Bounds, ch: &mut Chooser) -> Vec<Step> {
     let n = sc.ops.len();
-    let ntok = sc.ops.iter().map(|o| o.tok + 1).max().unwrap_or(0);
+    let ntok = ntok(sc);
     let mut a = Abs {
         next: 0,
         submitted: vec![false; n],
